@@ -495,6 +495,10 @@ def check_plans(specs: List[Dict[str, Any]], rep_prefix: str, run_accepted: int 
             outs = {obs[k]["outcome"] for _, obs in runs if "error" not in obs[k]}
             tfs_specs += any(any(s["kind"] == "TFS" for s in obs[k].get("plan", [])) for _, obs in runs)
             nondet += len(sigs) > 1
+            if len(sigs) > 1 and not any(choice[j] for j, (kk, _l) in enumerate(where) if kk == k):
+                out.append({"spec": frag[k], "stage": "determinism", "hash_seed": "all",
+                            "what": "two preparations gave different plans although kf_tfs_choice is false for every one of them "
+                                    "(contradicts theorem PlannerB_plan_deterministic_partial)"})
             if len(outs) > 1:
                 out.append({"spec": frag[k], "stage": "decision", "hash_seed": "all",
                             "what": f"the accept / reject decision differs between preparations: {sorted(outs)} (theorem "
